@@ -128,19 +128,23 @@ func (m *privModel) allowed(user, priv, table string) bool {
 
 type privProbe struct {
 	priv, table, sql string
+	and              [2]string // a second privilege the statement needs (priv, table), if any
 }
 
 var privProbes = []privProbe{
-	{"EXECUTE", "p1()", "CALL d.p1()"},
-	{"SELECT", "t3", "SELECT * FROM d.t3 WHERE 1 = 0"},
-	{"SELECT", "Tm", "SELECT * FROM d.Tm WHERE 1 = 0"},
-	{"UPDATE", "Tm", "UPDATE d.tm SET a = 1 WHERE 1 = 0"},
-	{"SELECT", "t1", "SELECT * FROM d.t1 WHERE 1 = 0"},
-	{"SELECT", "t2", "SELECT * FROM d.t2 WHERE 1 = 0"},
-	{"INSERT", "t1", "INSERT INTO d.t1 (id) SELECT 1 FROM dual WHERE 1 = 0"},
-	{"UPDATE", "t1", "UPDATE d.t1 SET a = 1 WHERE 1 = 0"},
-	{"DELETE", "t2", "DELETE FROM d.t2 WHERE 1 = 0"},
-	{"DELETE", "t1", "DELETE FROM d.t1 WHERE 1 = 0"},
+	{priv: "EXECUTE", table: "p1()", sql: "CALL d.p1()"},
+	{priv: "SELECT", table: "t3", sql: "SELECT * FROM d.t3 WHERE 1 = 0"},
+	// (a view is read with the invoker's rights on the underlying table too: the engine has no persisted
+	// definers yet - planbuilder "TODO: Once view definers are persisted, load the real definer client")
+	{priv: "SELECT", table: "vw", sql: "SELECT * FROM d.vw WHERE 1 = 0", and: [2]string{"SELECT", "t3"}},
+	{priv: "SELECT", table: "Tm", sql: "SELECT * FROM d.Tm WHERE 1 = 0"},
+	{priv: "UPDATE", table: "Tm", sql: "UPDATE d.tm SET a = 1 WHERE 1 = 0"},
+	{priv: "SELECT", table: "t1", sql: "SELECT * FROM d.t1 WHERE 1 = 0"},
+	{priv: "SELECT", table: "t2", sql: "SELECT * FROM d.t2 WHERE 1 = 0"},
+	{priv: "INSERT", table: "t1", sql: "INSERT INTO d.t1 (id) SELECT 1 FROM dual WHERE 1 = 0"},
+	{priv: "UPDATE", table: "t1", sql: "UPDATE d.t1 SET a = 1 WHERE 1 = 0"},
+	{priv: "DELETE", table: "t2", sql: "DELETE FROM d.t2 WHERE 1 = 0"},
+	{priv: "DELETE", table: "t1", sql: "DELETE FROM d.t1 WHERE 1 = 0"},
 }
 
 // privHosts: the host part of every generated account of the current run
@@ -192,6 +196,7 @@ func newPrivWorld(env *kernel.Env, disk *simDisk, load []byte) *privWorld {
 	pw.root.MustExec("INSERT INTO d.t2 VALUES (1, 1), (2, 2)")
 	pw.root.MustExec("INSERT INTO d.t3 VALUES (1, 1)")
 	pw.root.MustExec("CREATE PROCEDURE d.p1() SELECT 1")
+	pw.root.MustExec("CREATE VIEW d.vw AS SELECT id FROM d.t3")
 	return pw
 }
 
@@ -279,7 +284,7 @@ func (pw *privWorld) decisions(user string, fresh bool) string {
 func (m *privModel) decisions(user string) string {
 	var b strings.Builder
 	for _, p := range privProbes {
-		if m.allowed(user, p.priv, p.table) {
+		if m.allowed(user, p.priv, p.table) && (p.and[0] == "" || m.allowed(user, p.and[0], p.and[1])) {
 			b.WriteByte('A')
 		} else {
 			b.WriteByte('d')
@@ -305,9 +310,9 @@ func runPriv(env *kernel.Env, cfg privCfg) {
 	userNames := []string{"u1", "u2", "u3"}
 	roleNames := []string{"r1", "r2"}
 	tablePrivs := []string{"SELECT", "INSERT", "UPDATE", "DELETE", "CREATE", "DROP", "ALTER", "INDEX"}
-	dbPrivs := append(append([]string{}, tablePrivs...), "EXECUTE")
+	dbPrivs := append(append([]string{}, tablePrivs...), "EXECUTE", "CREATE VIEW")
 	globalPrivs := append(append([]string{}, dbPrivs...), "CREATE USER", "SUPER")
-	objects := []string{"t1", "t2", "t3", "Tm", "p1()"}
+	objects := []string{"t1", "t2", "t3", "Tm", "p1()", "vw"}
 	privsOf := func(obj string) []string {
 		if obj == "p1()" {
 			return []string{"EXECUTE"}
@@ -771,6 +776,7 @@ func privEffects(n int) []privEffect {
 		{"alter-table", "ALTER TABLE d.t3 ADD COLUMN x INT", [][2]string{{"ALTER", "t3"}}, []string{"ALTER TABLE d.t3 DROP COLUMN x"}},
 		{"create-index", "CREATE INDEX ix ON d.t3 (c)", [][2]string{{"INDEX", "t3"}}, []string{"DROP INDEX ix ON d.t3"}},
 		{"create-user", "CREATE USER 'tmp'@'localhost'", [][2]string{{"CREATE USER", ""}}, []string{"DROP USER 'tmp'@'localhost'"}},
+		{"create-view", "CREATE VIEW d.nv AS SELECT 1", [][2]string{{"CREATE VIEW", "nv"}}, []string{"DROP VIEW d.nv"}},
 	}
 }
 
